@@ -440,6 +440,26 @@ class Lib:
             rw.replace(op, [], [None] * len(op.results))
             self.st["match.ReplaceByNone"] += 1
 
+    def p_replace_none_unsafe(self, op: Operation, rw: PatternRewriter) -> None:
+        # replace(op, [], [None...], safe_erase=False) while the results still have users,
+        # then erase those users in the same match (they end with erased operands otherwise)
+        if "rnu" in op.attributes and op.results and not op.regions and op.parent is not None:
+            users: list[Operation] = []
+            for r in op.results:
+                for u in _users(r):
+                    if all(u is not x for x in users):
+                        users.append(u)
+            if not users or any(u is op or u.regions or u.parent is None or any(x.first_use is not None for x in u.results) for u in users):
+                return
+            self.j.add("replace", op)
+            for u in users:
+                self.j.add("modify", u)
+            self.j.add("remove", op)
+            rw.replace(op, [], [None] * len(op.results), safe_erase=False)
+            for u in users:
+                self.erase(rw, u)
+            self.st["match.ReplaceByNoneUnsafeThenEraseUsers"] += 1
+
     def p_hoist(self, op: Operation, rw: PatternRewriter) -> None:
         # inline_block only: move the body of a single-block, argument-free region before the op
         if "hoist" in op.attributes and len(op.regions) == 1:
@@ -454,13 +474,15 @@ class Lib:
         k = _cnt(op, "ruwi")
         if k > 0 and op.results and op.operands and op.operands[0].type == op.results[0].type and op.operands[0] is not op.results[0]:
             r, v = op.results[0], op.operands[0]
+            # the in-place edit comes first, the (possibly empty) conditional replacement
+            # last: a call that rewires nothing must not undo what the match already did
+            op.attributes["ruwi"] = IntAttr(k - 1)
+            self.modified(rw, op)
             sel = [u for u in r.uses if u.index % 2 == 0]
             for u in sel:
                 self.j.add("modify", u.operation)
             rw.replace_uses_with_if(r, v, lambda use: use.index % 2 == 0)
-            op.attributes["ruwi"] = IntAttr(k - 1)
-            self.modified(rw, op)
-            self.st["match.ReplaceUsesWithIf"] += 1
+            self.st["match.ReplaceUsesWithIf" + ("" if sel else ".nothing_selected")] += 1
 
     def p_retype(self, op: Operation, rw: PatternRewriter) -> None:
         if "retype" in op.attributes:
@@ -509,9 +531,9 @@ class Lib:
 PATTERN_NAMES = (
     "p_dec", "p_expand", "p_fold", "p_single_use", "p_erase_other", "p_replace_producer",
     "p_unwrap", "p_drop_arg", "p_add_arg", "p_retype", "p_region_move", "p_new_block",
-    "p_add_arg2", "p_insert_user", "p_hoist", "p_ruwi", "p_insert_default", "p_replace_matched", "p_inline_region", "p_replace_none",
+    "p_add_arg2", "p_insert_user", "p_hoist", "p_ruwi", "p_insert_default", "p_replace_matched", "p_inline_region", "p_replace_none", "p_replace_none_unsafe",
 )
-FLAGS = ("dec", "expand", "fold", "su", "eo", "victim", "rp", "victim2", "unwrap", "droparg", "retype", "rm", "addarg2", "insu", "hoist", "insd", "rmo", "inlreg", "rnone")
+FLAGS = ("dec", "expand", "fold", "su", "eo", "victim", "rp", "victim2", "unwrap", "droparg", "retype", "rm", "addarg2", "insu", "hoist", "insd", "rmo", "inlreg", "rnone", "rnu")
 
 
 class FnPattern(RewritePattern):
@@ -940,7 +962,12 @@ class DriverEngine(Engine):
                     "I1-stale-visit",
                 )
             else:
-                viol = Violation("driver-raised", "PatternRewriteWalker", wl.pops, f"{type(e).__name__} escaped rewrite_region: {str(e)[:160]}", f"driver-raised:{type(e).__name__}")
+                import traceback as _tb
+
+                fr = [f for f in _tb.extract_tb(e.__traceback__) if "/xdsl/" in f.filename]
+                where = fr[-1].name if fr else "?"
+                # (the message is not logged: it may contain object addresses)
+                viol = Violation("driver-raised", "PatternRewriteWalker", wl.pops, f"{type(e).__name__} raised in {where} escaped rewrite_region", f"driver-raised:{type(e).__name__}:{where}")
         if viol is None and ret is not None:
             canon_after = canon(u, module)
             # I4: reports a modification whenever the IR changed
@@ -1023,7 +1050,7 @@ class DriverEngine(Engine):
     def rule(self) -> str:
         return (
             "one case = one generated module (2-41 ops, nesting <= 3, multi-block regions, optional arith constants/adds) x one "
-            "ordered subset of 20 terminating patterns x one walker configuration x one seeded worklist schedule "
+            "ordered subset of 21 terminating patterns x one walker configuration x one seeded worklist schedule "
             "(pop policy, spurious wake-ups); oracles I1-I6 evaluated per match and at the end; non-trivial = the walk modified "
             "the IR and popped more items than there were ops; distinct = distinct (config, IR, schedule) choice sequences"
         )
